@@ -206,7 +206,7 @@ type c07Case struct {
 
 func (c c07Case) render() string {
 	if c.Docs {
-		return renderDocs(c.Tree, "", false)
+		return renderDocs(c.Tree, "", false, "")
 	}
 	return render(pieces(c.Tree), nil)
 }
@@ -480,7 +480,7 @@ func c07Cases(tier string) []c07Case {
 	add := func(d *RIDL, withDocs bool, extra ...string) {
 		var text string
 		if withDocs {
-			text = renderDocs(d, "", false)
+			text = renderDocs(d, "", false, "")
 		} else {
 			text = render(pieces(d), nil)
 		}
@@ -504,6 +504,11 @@ func c07Cases(tier string) []c07Case {
 	b := baseMembers()
 	// (b) interface names
 	names := []string{"a.b", "A.Bc", "a.b-c", "a.b-c.d0", "xn--a.b", "a.b.c.d.e.f", "a1.b2", "org.example.Go", "a.type", "a.func", "a.b.varlink", "a.b.json", "a.b.fmt", "a.b.context", "go.go", "a.main", "a.init"}
+	// names whose last word means something to the go tool when it ends a file name (the output file is named
+	// after the package): these are always compiled under the file name the generator chose
+	for _, n := range []string{"com.example.unit-test", "a.unit.test", "a.b_x", "org.x.for-windows", "a.runtime-wasm", "a.b-amd64", "a.linux", "a.b-linux-arm64", "a.js", "a.b-c-test"} {
+		add(&RIDL{Name: n, Members: b}, false, "filename")
+	}
 	for _, n := range names {
 		add(&RIDL{Name: n, Members: b}, false)
 		add(&RIDL{Name: n, Members: []RMember{b[0], {Kind: "method", Name: "M", In: TStruct(F("x", T("object")), F("y", TAlias("T0"))), Out: TStruct(F("z", TArr(T("string"))))}, {Kind: "error", Name: "E", Type: TStruct(F("reason", T("string")))}}}, false)
@@ -700,15 +705,27 @@ func realBinary(dir string, c c07Case, want []byte, pkg string) string {
 
 // goBuild writes the outputs as packages of one scratch module and runs the real `go build ./...`;
 // returns the set of package directories with compile errors.
-func goBuild(dir string, outs map[string][]byte) (failed map[string]string, infra string) {
+func goBuild(dir string, outs map[string][]byte, files map[string]string) (failed map[string]string, infra string) {
 	os.RemoveAll(dir)
 	os.MkdirAll(dir, 0o755)
 	os.WriteFile(filepath.Join(dir, "go.mod"), []byte("module gen\n\ngo 1.13\n\nrequire github.com/varlink/go v0.0.0\n\nreplace github.com/varlink/go => /repo\n"), 0o644)
 	for name, src := range outs {
 		os.MkdirAll(filepath.Join(dir, name), 0o755)
-		os.WriteFile(filepath.Join(dir, name, "gen.go"), src, 0o644)
+		fn := files[name] // the file name the generator gives its output: <package name>.go
+		if fn == "" {
+			fn = "gen.go"
+		}
+		os.WriteFile(filepath.Join(dir, name, fn), src, 0o644)
 	}
-	cmd := exec.Command("go", "build", "-overlay", os.Getenv("VX_OVERLAY"), "./...")
+	// every package is named explicitly: a package matched only by a wildcard is skipped in silence when the go
+	// tool leaves all its files out
+	args := []string{"build", "-overlay", os.Getenv("VX_OVERLAY")}
+	var pkgs []string
+	for name := range outs {
+		pkgs = append(pkgs, "./"+name)
+	}
+	sort.Strings(pkgs)
+	cmd := exec.Command("go", append(args, pkgs...)...)
 	cmd.Dir = dir
 	cmd.Env = os.Environ()
 	b, err := cmd.CombinedOutput()
@@ -716,10 +733,17 @@ func goBuild(dir string, outs map[string][]byte) (failed map[string]string, infr
 	if err == nil {
 		return failed, ""
 	}
-	re := regexp.MustCompile(`(?m)^(?:\./)?(p[0-9]+)/gen\.go:[0-9]+:[0-9]+: (.*)$`)
+	re := regexp.MustCompile(`(?m)^(?:\./)?(p[0-9]+)/[^/:\s]+\.go:[0-9]+:[0-9]+: (.*)$`)
 	for _, m := range re.FindAllStringSubmatch(string(b), -1) {
 		if _, ok := failed[m[1]]; !ok {
 			failed[m[1]] = m[2]
+		}
+	}
+	// a package whose only file the go tool leaves out (name ends in _test, _<GOOS>, _<GOARCH>) has no diagnostic position
+	re2 := regexp.MustCompile(`(?m)^package gen/(p[0-9]+): (build constraints exclude all Go files|no non-test Go files|no Go files)`)
+	for _, m := range re2.FindAllStringSubmatch(string(b), -1) {
+		if _, ok := failed[m[1]]; !ok {
+			failed[m[1]] = "the go tool does not compile the file under the name the generator gave it: " + m[2]
 		}
 	}
 	if len(failed) == 0 {
@@ -750,6 +774,7 @@ func runC07(tier string, r *Result) {
 		reported bool
 	}
 	builds := map[string][]byte{}
+	buildFiles := map[string]string{}
 	meta := map[string]*built{}
 	mineN := 0
 	for i, c := range cases {
@@ -775,7 +800,13 @@ func runC07(tier string, r *Result) {
 			r.outcome("ok " + strings.Join(c.Features, ","))
 			r.sample(c.Text)
 		}
-		if out != nil && mineN%buildEvery == 0 {
+		forced := false
+		for _, f := range c.Features {
+			if f == "filename" {
+				forced = true
+			}
+		}
+		if out != nil && (mineN%buildEvery == 0 || forced) {
 			// stratified subset: real binary on a real file, and the real go build
 			if msg == "" {
 				if m := realBinary(filepath.Join(scratch, "bin"), c, out, pkg); m != "" {
@@ -785,11 +816,12 @@ func runC07(tier string, r *Result) {
 			}
 			name := fmt.Sprintf("p%d", len(builds))
 			builds[name] = out
+			buildFiles[name] = pkg + ".go"
 			meta[name] = &built{c: c, typeOK: msg == "" || !strings.Contains(key, "does-not-compile") && !strings.Contains(key, "does-not-parse"), typeMsg: msg}
 		}
 	}
 	if len(builds) > 0 && !r.expired() {
-		failed, infra := goBuild(filepath.Join(scratch, "mod"), builds)
+		failed, infra := goBuild(filepath.Join(scratch, "mod"), builds, buildFiles)
 		if infra != "" {
 			r.Infra = infra
 			return
